@@ -4,6 +4,7 @@ package main
 
 import (
 	"fmt"
+	"strings"
 	"go/token"
 	"go/types"
 
@@ -178,6 +179,9 @@ func (vc *VC) rangeInit(x *ssa.Range, st *State) {
 	}
 	vc.setVal(x, vc.val(x.X).S)
 	vc.heapWrite(st, key, vc.heapElem[key], "lnil", fmt.Sprintf("((as const (Array %s Bool)) false)", vc.sortOf(mt.Key())))
+	ck := strings.Replace(key, "#iter", "#itern", 1)
+	vc.heapKeySort(ck, types.Typ[types.Int])
+	vc.heapWrite(st, ck, types.Typ[types.Int], "lnil", vc.ar.ix(0))
 }
 
 func (vc *VC) rangeNext(x *ssa.Next, st *State) {
@@ -203,6 +207,19 @@ func (vc *VC) rangeNext(x *ssa.Next, st *State) {
 	vc.assume(g, vc.typeInv(mt.Key(), k, st))
 	vc.assume(g, vc.typeInv(mt.Elem(), v, st))
 	vc.heapWrite(st, key, vc.heapElem[key], "lnil", ite(ok2, sx("store", vis, k, "true"), vis))
+	// number of keys produced so far; if the loop does not modify any map, a completed iteration
+	// produced exactly len(map) keys
+	ck := strings.Replace(key, "#iter", "#itern", 1)
+	vc.heapKeySort(ck, types.Typ[types.Int])
+	cnt := vc.heapRead(st, ck, types.Typ[types.Int], "lnil")
+	li := vc.loopContaining(x.Block())
+	if li != nil && !li.modAll && !li.mods["#map"] {
+		_, _, lk := vc.mapKeyNames(mt)
+		ln := ite(eq(m.S, "lnil"), vc.ar.ix(0), vc.heapRead(st, lk, types.Typ[types.Int], m.S))
+		vc.assume(g, imp(ok2, vc.ar.lt(ixInfo, cnt, ln)))
+		vc.assume(g, imp(not(ok2), eq(cnt, ln)))
+	}
+	vc.heapWrite(st, ck, types.Typ[types.Int], "lnil", ite(ok2, vc.ar.ixadd(cnt, vc.ar.ix(1)), cnt))
 	vc.vals[x] = TV{T: x.Type(), Tup: []TV{{T: types.Typ[types.Bool], S: ok2}, {T: mt.Key(), S: k}, {T: mt.Elem(), S: v}}}
 }
 
